@@ -137,7 +137,11 @@ RulePODInterval(p, i) ==
   LET adj(t) == IF t.H = X THEN X ELSE IF t.H < 12 /\ PodPMish(p.p) THEN t.H + 12 ELSE t.H
       okEnd(e) == e = NONE \/ hasTime(e)
       mk(e) == IF e = NONE THEN NONE ELSE MkTime(e.y, e.m, e.d, adj(e), e.M, e.w, NOPOD)
-  IN IF ~(okEnd(i.f) /\ okEnd(i.t)) THEN FAIL ELSE MkInterval(mk(i.f), mk(i.t))
+      bothDT == i.f # NONE /\ i.t # NONE /\ isDateTime(mk(i.f)) /\ isDateTime(mk(i.t))
+  IN IF ~(okEnd(i.f) /\ okEnd(i.t)) THEN FAIL
+     \* repaired (fix a89b919, C02): shifting only the start into the afternoon must not invert a dated interval
+     ELSE IF bothDT /\ AbsMin(DtOf(mk(i.f))) >= AbsMin(DtOf(mk(i.t))) THEN FAIL
+     ELSE MkInterval(mk(i.f), mk(i.t))
 
 \* ---- the rule base -------------------------------------------------------
 Apply(r, ts, a) ==
